@@ -120,6 +120,24 @@ class Array(Dom):
         self.alts = tuple(alts)
 
 
+class HeapCompiler(Dom):
+    """`self` of an ExcelCompiler method in heap mode: cell_map and dep_graph are abstract (A-NX)"""
+
+    def __init__(self, cycles=False):
+        self.cycles = cycles
+
+
+class HeapCell(Dom):
+    """a cell / range node of the model (an element of the uninterpreted sort Node)"""
+
+
+class OpaqueV(Dom):
+    """an Excel value of unknown type (uninterpreted sort V; None included unless excluded)"""
+
+    def __init__(self, allow_none=True):
+        self.allow_none = allow_none
+
+
 class Abstract(Dom):
     """An abstract callable parameter with a contract of its own."""
 
@@ -151,7 +169,7 @@ class Contract:
                  returns=None, modular=(), name=None, closure_env=None,
                  decreases=None, invariants=None, notes='', bound_args=None,
                  klass='PROVED', frame=None, when=None, free_vars=(),
-                 native_call=None, apply_decorators=False):
+                 native_call=None, apply_decorators=False, heap=False):
         self.target = target
         self.prop = prop
         self.params = params
@@ -172,6 +190,7 @@ class Contract:
         self.free_vars = tuple(free_vars)
         self.native_call = native_call
         self.apply_decorators = apply_decorators
+        self.heap = heap
 
 
 class Lemma:
